@@ -10,6 +10,8 @@
 -/
 import LiteFSVerif.Model.API
 import LiteFSVerif.Gen.Facts
+import LiteFSVerif.Gen.Skel
+import LiteFSVerif.Model.ExpectedSkel
 
 namespace LiteFSVerif.C20
 open LiteFSVerif LiteFSVerif.API
@@ -119,5 +121,20 @@ example : validDBName "../x".toList = false ∧ validDBName [] = false ∧ valid
     parseNodeID "00000000000000000001" = some 1 ∧ parseNodeID "xyz" = none ∧
     route "/halt" "DELETE" = .handler .deleteHalt ∧ route "/halt/" "POST" = .notFound ∧ route "/tx" "GET" = .methodNotAllowed := by
   decide
+
+/-- further regenerated control skeletons (see Model/ExpectedSkel.lean): Store_CreateDB, Store_CreateDBIfNotExists, Server_serveHTTP, Server_handlePostImport, Server_handleGetExport, Server_handlePostHalt, Server_handleDeleteHalt, Server_handlePostPromote, Server_handlePostHandoff, Server_handlePostTx, Server_handlePostStream -/
+theorem C20_source_skeletons :
+    Gen.Skel.Store_CreateDB = Expected.Skel.Store_CreateDB ∧
+    Gen.Skel.Store_CreateDBIfNotExists = Expected.Skel.Store_CreateDBIfNotExists ∧
+    Gen.Skel.Server_serveHTTP = Expected.Skel.Server_serveHTTP ∧
+    Gen.Skel.Server_handlePostImport = Expected.Skel.Server_handlePostImport ∧
+    Gen.Skel.Server_handleGetExport = Expected.Skel.Server_handleGetExport ∧
+    Gen.Skel.Server_handlePostHalt = Expected.Skel.Server_handlePostHalt ∧
+    Gen.Skel.Server_handleDeleteHalt = Expected.Skel.Server_handleDeleteHalt ∧
+    Gen.Skel.Server_handlePostPromote = Expected.Skel.Server_handlePostPromote ∧
+    Gen.Skel.Server_handlePostHandoff = Expected.Skel.Server_handlePostHandoff ∧
+    Gen.Skel.Server_handlePostTx = Expected.Skel.Server_handlePostTx ∧
+    Gen.Skel.Server_handlePostStream = Expected.Skel.Server_handlePostStream :=
+  ⟨rfl, rfl, rfl, rfl, rfl, rfl, rfl, rfl, rfl, rfl, rfl⟩
 
 end LiteFSVerif.C20
